@@ -90,6 +90,7 @@ func init() {
 				chunks = ints(1, 2, 3)
 			}
 			js = append(js, clientJobs("VH_C07_fragmented", th, chunks, true, nil)...)
+			js = append(js, sym.Job{Harness: "VH_C07_loop_shape", Params: map[string]int{}})
 			return js
 		},
 		Bounds: map[string]string{
@@ -98,7 +99,7 @@ func init() {
 		},
 		Outside:     []string{"more reads than the bound; cut positions outside the case-split set (positions between 13 and E-2 behave like 12: no comparison in the loop distinguishes them)", "transports violating the io.Reader contract", "real timer behaviour: the timer fires only when the harness lets time pass (after the reply has been delivered completely)"},
 		Assumptions: []string{"time.After readiness is controlled by the harness (vndAdvanceTime); time.Sleep is a no-op; sync.RWMutex sequential model"},
-		MinCovers:   []string{"constructed", "exchange"},
+		MinCovers:   []string{"constructed", "exchange", "loop-shape"},
 	})
 }
 
